@@ -47,21 +47,21 @@ func (callEngine) Meta(prop, tier string) meta {
 	switch prop {
 	case "C02":
 		return meta{Level: "exploration",
-			Rule: "case = world (1-3 model files, 1-3 tasks, <= 10 calls) + a serial interleaving of the tasks' calls. Calls: Run with fresh tensors, Run with the very same tensor objects again, Run with the same tensor objects after the caller overwrote their contents (buffer re-use), Run with an earlier call's outputs fed back (or its whole result map merged into the inputs), Run with one invalid input (incl. the nearest wrong element type holding real data), Run aborted by an injected operator error/panic at node k (before Init / before ValidateInputs / before Apply / after Apply), accessors, reload (also of a bit-flipped copy). After every call: outcome kind and every output bit for bit equal the same call alone on a freshly loaded Model; every caller tensor equals its pre-call snapshot; every weight equals its load-time snapshot; proto.Equal(model protobuf, load-time clone). Enumerated first: every operator template x every (operand, binding mode) pair x 3 fixed reuse patterns, and the 4 sample models x the patterns; then seeded worlds. non-trivial = a later Run on the same Model re-uses tensor objects, takes fed-back outputs, or follows a rejected/aborted call; distinct = hash of the whole case.",
+			Rule:        "case = world (1-3 model files, 1-3 tasks, <= 10 calls) + a serial interleaving of the tasks' calls. Calls: Run with fresh tensors, Run with the very same tensor objects again, Run with the same tensor objects after the caller overwrote their contents (buffer re-use), Run with an earlier call's outputs fed back (or its whole result map merged into the inputs), Run with one invalid input (incl. the nearest wrong element type holding real data), Run aborted by an injected operator error/panic at node k (before Init / before ValidateInputs / before Apply / after Apply), accessors, reload (also of a bit-flipped copy). After every call: outcome kind and every output bit for bit equal the same call alone on a freshly loaded Model; every caller tensor equals its pre-call snapshot; every weight equals its load-time snapshot; proto.Equal(model protobuf, load-time clone). Enumerated first: every operator template x every (operand, binding mode) pair x 3 fixed reuse patterns, and the 4 sample models x the patterns; then seeded worlds. non-trivial = a later Run on the same Model re-uses tensor objects, takes fed-back outputs, or follows a rejected/aborted call; distinct = hash of the whole case.",
 			Assumptions: []string{"the reference is the same code run alone on a freshly loaded Model: numerical correctness of operators is not decided here", "a bad call carries exactly one invalid input so the expected outcome kind does not depend on map iteration order", "error messages are not compared, only ok/error/panic"},
 			Real:        real, Stub: stub,
 			Exhaustive: "operator template x operand x binding-mode x reuse-pattern product (one seeded instance each)"}
 	case "C06":
 		return meta{Level: "exploration",
-			Rule: "case = world of 1-2 RNN/GRU/LSTM models (every subset of B/P, linear_before_reset, activation lists, weights raw/typed/Constant) and 1-3 tasks each running 1-2 sessions: a sequence cut into 2-4 pieces, each piece a Run whose initial state inputs are the previous piece's Y_h/Y_c tensor objects, with other sessions' pieces, rejected calls, aborted calls, unrelated Runs and reloads on the same Model in between. Oracle: concat(Y pieces), final Y_h, final Y_c equal one whole-sequence Run on a fresh Model bit for bit; piece fails iff whole fails. Enumerated first: kind x 6 configurations x seq 2..6 x every cut (and every pair of cuts for seq 4-5). non-trivial = whole run succeeds and >= 2 pieces; distinct = hash of the case. Only the third sentence of C06 (splitting) is decided.",
+			Rule:        "case = world of 1-2 RNN/GRU/LSTM models (every subset of B/P, linear_before_reset, activation lists, weights raw/typed/Constant) and 1-3 tasks each running 1-2 sessions: a sequence cut into 2-4 pieces, each piece a Run whose initial state inputs are the previous piece's Y_h/Y_c tensor objects, with other sessions' pieces, rejected calls, aborted calls, unrelated Runs and reloads on the same Model in between. Oracle: concat(Y pieces), final Y_h, final Y_c equal one whole-sequence Run on a fresh Model bit for bit; piece fails iff whole fails. Enumerated first: kind x 6 configurations x seq 2..6 x every cut (and every pair of cuts for seq 4-5). non-trivial = whole run succeeds and >= 2 pieces; distinct = hash of the case. Only the third sentence of C06 (splitting) is decided.",
 			Assumptions: []string{"input and hidden sizes >= 2 (size 1 makes the operators fail whole and split alike on the pinned tree)", "the recurrence equations themselves (first two sentences of C06) are a pure function and are not decided"},
 			Real:        real, Stub: stub,
 			Exhaustive: "all single cut points for seq 2..6 and all cut pairs for seq 4..5, per operator kind and 6 drawn configurations"}
 	}
 	return meta{Level: "exploration",
-		Rule: "case = world (1-2 shared Models, 2-16 tasks with own input tensors, <= 4 calls each incl. invalid inputs, injected operator errors/panics, concurrent loads) + a schedule = explicit list of (task, k-th yield) -> next task over the instrumented copy of gonnx (a yield before every statement; map iteration order drawn from the seed). Policies: enumerated single preemption P(δ) for two callers on every operator template and small sample model, PCT(d<=5), random walk (p=1/2..1/1024), lockstep, serial. Oracle: every call's outcome kind and outputs equal, bit for bit, the same call alone on a fresh Model; concurrently loaded models have a quiet load's weights. non-trivial = two tasks were inside Run on the same Model at the same simulated time (a Run entered while another task is parked inside one, or a preemption taken then); distinct = hash of (world, schedule); distinct_interleavings = distinct schedule hashes.",
+		Rule:        "case = world (1-2 shared Models, 2-16 tasks with own input tensors, <= 4 calls each incl. invalid inputs, injected operator errors/panics, concurrent loads) + a schedule = explicit list of (task, k-th yield) -> next task over the instrumented copy of gonnx (a yield before every statement; map iteration order drawn from the seed). Policies: enumerated single preemption P(δ) for two callers on every operator template and small sample model, PCT(d<=5), random walk (p=1/2..1/1024), lockstep, serial. Oracle: every call's outcome kind and outputs equal, bit for bit, the same call alone on a fresh Model; concurrently loaded models have a quiet load's weights. non-trivial = two tasks were inside Run on the same Model at the same simulated time (a Run entered while another task is parked inside one, or a preemption taken then); distinct = hash of (world, schedule); distinct_interleavings = distinct schedule hashes.",
 		Assumptions: []string{"interleavings are explored at statement granularity of gonnx and of six files of gorgonia.org/tensor (ap.go, dense.go, dense_matop.go, dense_linalg.go, defaultengine_linalg.go, api_matop.go: tensor headers, views, transposition, linear-algebra front end); all other dependency code (element loops, gonum, protobuf, gorgonia's pools) runs atomically between two yields", "critical sections (Lock..Unlock, sync.Once.Do) and functions using go/channels/select/WaitGroup/Cond are atomic to the simulated scheduler (fewer interleavings, never an impossible one)", "1 world in 200 is judged against references computed in brand-new OS processes, the others against a fresh Model in the same process", "auxiliary race tier (outside the deterministic family, probabilistic detection, no false positives): the same seeded worlds run with free-running goroutines in a -race build; any race report with a gonnx frame, or any result differing from the run-alone reference, is reported; its replay re-runs the world up to 80 times"},
-		Extra: map[string]interface{}{"race_tier_note": "probes race_tier_worlds / race_tier_calls / race_detector_reports count the auxiliary -race tier; everything else in this file is the deterministic simulation"},
+		Extra:       map[string]interface{}{"race_tier_note": "probes race_tier_worlds / race_tier_calls / race_detector_reports count the auxiliary -race tier; everything else in this file is the deterministic simulation"},
 		Real:        append(real, "instrumented copy of the four gonnx packages and of six files of gorgonia.org/tensor v0.9.24 (yield points are calls into a hook, no semantic change)"), Stub: append(stub, "the scheduler (baton passing between real goroutines)"),
 		Exhaustive: "single-preemption schedules P(δ) over every yield of caller A (thorough) for two callers x one Run on each template/sample model"}
 }
